@@ -13,6 +13,7 @@ The table facts (`classTablesOk`) are decided over the regenerated table, so a m
 `rotated` entries of the 2-D colour codes before fix 97df331), a missing key or an unknown colour name
 breaks the build of this file.
 -/
+import PanqecVerif.Generated.Gui
 import PanqecVerif.Proofs.GuiReprCubic3D
 import PanqecVerif.Proofs.GuiReprColor666Toric
 
@@ -61,6 +62,33 @@ theorem lookup_miss_fails (g : ClassGeom) (T : Tables) (name : String) (rot : Bo
   cases hq : g.lat.qubits.mapM (g.qubitRepr T rot) with
   | error e' => exact ⟨e', rfl⟩
   | ok qs => exact ⟨e, by simp only [he]⟩
+
+/-- The complete table used here and the summary table of `Properties/C20.lean` are two views of the
+    same regenerated file: the summary rows (class, kind, picture, type, object, colour names,
+    opacity / params present) of the complete entries are exactly `Generated.Gui.config`, and the
+    colormaps agree. -/
+theorem tables_agree :
+    Generated.GuiFull.entries.map REntry.summary = Generated.Gui.config ∧
+    Generated.GuiFull.colormap = Generated.Gui.colormap := by
+  constructor <;> decide +kernel
+
+/-- **Validity transfers to the answer** (C01 + C08): if the matrices of the lattice model form a valid
+    `[[n, k]]` code and the installed relabelling is a permutation of {X, Y, Z} on every qubit, the
+    `H`, `logical_x`, `logical_z` of a faithful answer form a valid `[[n, k]]` code, deformed or not. -/
+theorem payload_valid (g : ClassGeom) (T : Tables) (name : String) (rot : Bool) (p : Payload)
+    (hf : Faithful g T name rot p) {n k : Nat} (hn : g.lat.qubits.length = n)
+    (hv : ValidCodeL n k g.lat.rowsH g.lat.rowsX g.lat.rowsZ)
+    (hperm : ∀ q, (g.dmap name q).isPerm = true) :
+    ValidCodeL n k p.H p.logicalX p.logicalZ := by
+  by_cases h : name = "None"
+  · obtain ⟨h1, h2, h3⟩ := hf.undeformed h
+    rw [h1, h2, h3]; exact hv
+  · obtain ⟨h1, h2, h3⟩ := hf.deformed h
+    rw [h1, h2, h3]
+    refine Deform.validCode_deform (by simpa using hn) ?_ hv
+    intro D hD
+    obtain ⟨q, _, rfl⟩ := List.mem_map.mp hD
+    exact hperm q
 
 /-! ### the three 2-D surface codes (no override: `location` is the coordinate itself) -/
 
@@ -128,16 +156,21 @@ theorem hollowPlanar3D_code_data (Lx Ly Lz : Nat) (hx : 1 ≤ Lx) (hy : 1 ≤ Ly
   let ⟨p, h1, h2⟩ := describeAll_faithful (hollowPlanar3D_servable Lx Ly Lz hx hy hz) rot
   ⟨p, h1, h2, fun _ => ⟨cubic_location rot _ _, rfl⟩⟩
 
-/-- The answers carry valid codes: the `H`, `logical_x`, `logical_z` of the undeformed
-    `Toric3DCode` answer form a valid `[[3·Lx·Ly·Lz, 3]]` stabilizer code (C01 `valid_code`). -/
-theorem toric3D_code_data_valid (Lx Ly Lz : Nat) (hx : 2 ≤ Lx) (hy : 2 ≤ Ly) (hz : 2 ≤ Lz) (rot : Bool) :
-    ∃ p, (toric3D Lx Ly Lz).describeAll Generated.GuiFull.tables "None" rot = .ok p ∧
+/-- The answers carry valid codes: the `H`, `logical_x`, `logical_z` of the `Toric3DCode` answer,
+    undeformed or XZZX-deformed, form a valid `[[3·Lx·Ly·Lz, 3]]` stabilizer code (C01 `valid_code`,
+    C08 `validCode_deform`). -/
+theorem toric3D_code_data_valid (Lx Ly Lz : Nat) (hx : 2 ≤ Lx) (hy : 2 ≤ Ly) (hz : 2 ≤ Lz) (name : String)
+    (hn : name = "None" ∨ name = "XZZX") (rot : Bool) :
+    ∃ p, (toric3D Lx Ly Lz).describeAll Generated.GuiFull.tables name rot = .ok p ∧
       ValidCodeL (3 * (Lx * Ly * Lz)) 3 p.H p.logicalX p.logicalZ := by
-  obtain ⟨p, h1, h2, _⟩ := toric3D_code_data Lx Ly Lz hx hy hz "None" (Or.inl rfl) rot
-  obtain ⟨hH, hX, hZ⟩ := h2.undeformed rfl
-  refine ⟨p, h1, ?_⟩
-  rw [hH, hX, hZ]
-  exact (C01Toric3DCode.valid_code Lx Ly Lz hx hy hz).2.2.2
+  obtain ⟨p, h1, h2, _⟩ := toric3D_code_data Lx Ly Lz hx hy hz name hn rot
+  refine ⟨p, h1, payload_valid _ _ _ _ _ h2 (C01Toric3DCode.n_formula Lx Ly Lz)
+    (C01Toric3DCode.valid_code Lx Ly Lz hx hy hz).2.2.2 ?_⟩
+  intro q
+  unfold ClassGeom.dmap
+  cases hd : (toric3D Lx Ly Lz).deformation name q with
+  | none => rfl
+  | some m => exact C01Toric3DCode.deformation_perm (name := name) (axis := none) (loc := q) hd
 
 /-! ### the other 3-D classes -/
 
